@@ -448,4 +448,5 @@ _meta_add("C10", functions=["sync::Replica::sync_process_message::{closure#0} (a
           assumptions=["ranger::Message::value_count uninterpreted; counter arithmetic as uninterpreted plus / minus (overflow of a usize counter of in-memory messages out of scope)"])
 _meta_add("C01", functions=["sync::Replica::sync_process_message::{closure#0}::{closure#0} (validate callback, query c03_reconcile_validation)", "store::fs::StoreInstance::remove_prefix_filtered (query c02_remove_prefix)",
                             "sync::Replica::sync_process_message::{closure#0} counters (query c10_step_counts)"])
+_meta_add("C09", functions=["store::<impl FromStr for FilterKind>::from_str on an arbitrary SMT string (query c09_filter_from_str_total), Display/FromStr round trip (query c15_filter_text)"])
 _meta_add("C16", functions=["actor::Actor::close (query c14_gating part C)", "store::fs::Store::register_useful_peer::{closure#0} (query c17_register_step)"])
